@@ -280,6 +280,8 @@ can_fetch = REG.add(Contract(
 ))
 
 
+MB_MODEL.methods["_can_fetch"] = can_fetch
+
 # --------------------------------------------------------------------------------------
 # kill / subscribe / send / close
 # --------------------------------------------------------------------------------------
@@ -519,6 +521,15 @@ def _rd_inv4(S, a):
     ] + _ty_facts(S, a)
 
 
+def _read_wait(eng, args, kw, st, fr, k, node):
+    """reader's wait: it must have published its demand (waiting_for[me] = the number it needs) before sleeping"""
+    o = eng.resolve(st.env["self"], st.heap)
+    me = st.env["subscriber_i"]
+    eng.oblige("demand", "a reader publishes the message number it waits for before it sleeps", st,
+               W(o, me) == int2v(eng.to_int(st.env["next_number"])), node)
+    return MON.wait_handler(lambda e_, s_: s_.env["self"], _reader_me)(eng, args, kw, st, fr, k, node)
+
+
 def _read(T, tag, lazy):
     has_msg, get_msg = (HAS_MSG_L, GET_MSG_L) if lazy else (HAS_MSG_E, GET_MSG_E)
     return Contract(
@@ -544,6 +555,7 @@ def _read(T, tag, lazy):
         with_handler=MON.with_handler(_lock_of, me=_reader_me),
         calls=mon_calls(me=_reader_me, extra={
             "self._has_msg": has_msg, "self._get_msg": get_msg, "self._can_fetch": can_fetch,
+            "self._read_condition.wait_for": _read_wait,
             "msg.result": _future_result, "msg.done": Abstract(sort="bool"),
             "self.kill_from_exception": _kill_from_exception_callee}),
         local_sorts={"to_yield": ListT(("int", "V")), "msg": "V", "res": "V"},
@@ -554,3 +566,217 @@ def _read(T, tag, lazy):
 
 
 READ_E, READ_L = _both("_read", _read)
+
+
+# --------------------------------------------------------------------------------------
+# kill_from_exception / _send_from : failure relay (C06) and the lazy fetch gate (C13)
+# --------------------------------------------------------------------------------------
+IS_MBK = z3.Function("isinstance:MailboxKilled", V, z3.BoolSort())
+
+
+def _kfe(T, tag, lazy):
+    kill_c = KILL_L if lazy else KILL_E
+
+    def kill_hook(eng, args, kw, st, fr, k, node):
+        """self.kill(reason=...): the callee's own locked section; remember (ghost) the reason it was called with"""
+        g = dict(st.ghost)
+        g["kill_reason"] = eng.to_v(kw.get("reason", PNONE)) if not isinstance(kw.get("reason"), tuple) else \
+            z3.Function("fn:exc_info_triple", V, V)(eng.to_v(kw["reason"][1]))
+        g["kill_called"] = z3.BoolVal(True)
+        return k(PNONE, St(st.env, st.heap, st.pc, g))
+    return Contract(
+        F, "Mailbox.kill_from_exception", variant=tag,
+        params=dict(self=T, e="V", reraise="bool"),
+        ensures=lambda S, a, r: [
+            ("the mailbox is killed", a.ghost.kill_called),
+            ("a MailboxKilled is passed on with its ORIGINAL reason; anything else becomes the reason itself",
+             z3.If(IS_MBK(a.e), a.ghost.kill_reason == z3.Function("getitem", V, V, V)(z3.Function("attr_args", V, V)(a.e), int2v(z3.IntVal(0))),
+                   a.ghost.kill_reason == z3.Function("fn:exc_info_triple", V, V)(a.e))),
+            ("returns normally only for MailboxKilled or when asked not to re-raise", S.Or(IS_MBK(a.e), S.Not(a.reraise)))],
+        raises={"Any": lambda S, a: S.And(S.Not(IS_MBK(a.e)), a.reraise)},
+        exc_ensures=lambda S, a, exc: [("the mailbox was killed before the exception is re-raised", a.ghost.kill_called),
+                                       ("the exception re-raised is the one received", S.v(exc.payload) == a.e if exc.payload is not None else S.false)],
+        ghost={"kill_called": z3.BoolVal(False), "kill_reason": z3.Const("no_reason", V)},
+        calls={"self.kill": kill_hook, "self.log.debug": Abstract(sort=None), "sys.exc_info": Abstract(sort="V")},
+        consts={"MailboxKilled": __import__("pyvc.engine", fromlist=["Named"]).Named("MailboxKilled")},
+    )
+
+
+KFE_E, KFE_L = _both("kill_from_exception", _kfe)
+
+
+def _send_from(T, tag, lazy):
+    def next_hook(eng, args, kw, st, fr, k, node):
+        """x = next(iterable): the source is advanced.  In lazy mode the fetch gate must have answered True."""
+        if lazy:
+            eng.oblige("dominance", "lazy mode: the source is advanced only after the fetch gate answered True "
+                                    "(a driving reader waits and nobody still waits for a buffered message)", st,
+                       st.ghost["gate"], node)
+        it = args[0]
+        cell = st.heap[it.base]
+        pos, n = cell["pos"], cell["n"]
+        g = dict(st.ghost)
+        g["gate"] = z3.BoolVal(False)
+        s0 = St(st.env, st.heap, st.pc, g)
+        fr.on_raise(Exc("StopIteration", origin="callee"), s0.assume(pos >= n))
+        fr.on_raise(Exc("Any", Opq(eng.fresh("source_exc", "V")), excluding=("StopIteration",)), s0)
+        s1 = s0.assume(pos < n).with_cell(it.base, "pos", pos + 1)
+        return k(Opq(z3.Select(cell["seq"], pos)), s1)
+
+    def gate_hook(eng, args, kw, st, fr, k, node):
+        """self._can_fetch() evaluated under the lock: remember the answer (ghost)"""
+        from pyvc.library import contract_call
+        def after(r, s2):
+            return k(r, St(s2.env, s2.heap, s2.pc, {**s2.ghost, "gate": r}))
+        return contract_call(eng, can_fetch, [st.env["self"]], {}, st, fr, after, node)
+
+    def wait_gate(eng, args, kw, st, fr, k, node):
+        base = MON.wait_handler(lambda e_, s_: s_.env["self"], None)
+        def after(r, s2):
+            return k(r, St(s2.env, s2.heap, s2.pc, {**s2.ghost, "gate": eng.truth(r)}))
+        return base(eng, args, kw, st, fr, after, node)
+
+    def send_hook(eng, args, kw, st, fr, k, node):
+        fr.on_raise(Exc("Any", Opq(eng.fresh("send_exc", "V"))), st)
+        g = dict(st.ghost)
+        g["n_forwarded"] = g["n_forwarded"] + 1
+        return k(PNONE, St(st.env, st.heap, st.pc, g))
+
+    def kfe_hook(eng, args, kw, st, fr, k, node):
+        g = dict(st.ghost)
+        g["killed_with"] = eng.to_v(args[0]) if not isinstance(args[0], Exc) else (
+            eng.to_v(args[0].payload) if args[0].payload is not None else z3.Const("exc:" + args[0].cls, V))
+        g["kill_called"] = z3.BoolVal(True)
+        s2 = St(st.env, st.heap, st.pc, g)
+        fr.on_raise(Exc("Any", Opq(eng.fresh("reraised", "V"))), s2)
+        return k(PNONE, s2)
+
+    def close_hook(eng, args, kw, st, fr, k, node):
+        s2 = St(st.env, st.heap, st.pc, {**st.ghost, "close_called": z3.BoolVal(True)})
+        fr.on_raise(Exc("Any", Opq(eng.fresh("close_exc", "V"))), s2)
+        return k(PNONE, s2)
+
+    def throw_hook(eng, args, kw, st, fr, k, node):
+        s2 = St(st.env, st.heap, st.pc, {**st.ghost, "thrown_into_source": z3.BoolVal(True)})
+        fr.on_raise(Exc("Any", Opq(eng.fresh("throw_exc", "V"))), s2)
+        return k(PNONE, s2)
+
+    extra = {"next": next_hook, "self._can_fetch": gate_hook, "self.send": send_hook,
+             "self.kill_from_exception": kfe_hook, "self.close": close_hook, "iterable.throw": throw_hook}
+    calls = mon_calls(extra=extra)
+    calls["self._fetch_new_condition.wait_for"] = wait_gate
+    return Contract(
+        F, "Mailbox._send_from", variant=tag,
+        params=dict(self=T, iterable=IterT()),
+        requires=_inv_requires,
+        ensures=lambda S, a, r: [
+            ("the sender thread ends by closing the mailbox (source exhausted) or by killing it (any failure)",
+             S.Or(a.ghost.close_called, a.ghost.kill_called)),
+            ("every item the source produced was forwarded with send, in order",
+             S.Or(a.ghost.kill_called, a.ghost.n_forwarded == a.iterable.n)),
+            ("a regular stop consumes the whole source", S.Implies(S.Not(a.ghost.kill_called), a.iterable.pos == a.iterable.n))],
+        raises={"Any": lambda S, a: S.true},
+        exc_ensures=lambda S, a, exc: [("an exception leaves the sender thread only after the mailbox was killed with it "
+                                        "(or from the final close)", S.Or(a.ghost.kill_called, a.ghost.close_called))],
+        ghost={**GHOST0, "gate": z3.BoolVal(False), "kill_called": z3.BoolVal(False), "close_called": z3.BoolVal(False),
+               "killed_with": z3.Const("nothing", V), "n_forwarded": z3.IntVal(0), "thrown_into_source": z3.BoolVal(False)},
+        loops={1: Loop(lambda S, a: [("every item fetched so far was forwarded", S.And(a.ghost.n_forwarded == a.iterable.pos,
+                                                                                       a.iterable.pos <= a.iterable.n, a.i >= 0)),
+                                     ("nothing has failed yet", S.And(S.Not(a.ghost.kill_called), S.Not(a.ghost.close_called)))])},
+        loop_ghost={1: ["gate", "n_forwarded", "Sent", "SentMsg", "End"]},
+        with_handler=MON.with_handler(_lock_of),
+        calls=calls,
+    )
+
+
+SEND_FROM_E, SEND_FROM_L = _both("_send_from", _send_from)
+
+
+# --------------------------------------------------------------------------------------
+# structural obligations on the AST of mailbox.py
+# --------------------------------------------------------------------------------------
+import ast as _ast  # noqa: E402
+from pyvc.engine import load_module_ast  # noqa: E402
+from pyvc.runner import Structural  # noqa: E402
+
+SHARED_ATTRS = set(SHARED) | {"_subscriber_waiting_for", "_subscribers_have_read", "_subscriber_can_drive", "_mailbox"}
+LOCK_HELD_METHODS = {"_can_fetch", "_has_msg", "_get_msg", "_lowest_msg_number", "_n_subscribers"}   # callers hold the lock
+MUTATORS = {"append", "pop", "insert", "extend", "remove", "clear", "sort"}
+
+
+def _under_lock(node, parents):
+    p = parents.get(id(node))
+    while p is not None:
+        if isinstance(p, _ast.With) and any(
+                isinstance(i.context_expr, _ast.Attribute) and i.context_expr.attr == "_lock" for i in p.items):
+            return True
+        p = parents.get(id(p))
+    return False
+
+
+def lock_discipline():
+    """Every write to a shared attribute of the mailbox is lexically inside ``with self._lock`` (or in __init__ /
+    a method whose contract says the caller holds the lock)."""
+    tree, _ = load_module_ast(F)
+    cls = next(n for n in tree.body if isinstance(n, _ast.ClassDef) and n.name == "Mailbox")
+    out = []
+    for fn in [n for n in cls.body if isinstance(n, _ast.FunctionDef)]:
+        if fn.name == "__init__" or fn.name in LOCK_HELD_METHODS:
+            continue
+        parents = {}
+        for p in _ast.walk(fn):
+            for c in _ast.iter_child_nodes(p):
+                parents[id(c)] = p
+        bad = []
+        for n in _ast.walk(fn):
+            tgt_attrs = []
+            if isinstance(n, (_ast.Assign, _ast.AugAssign)):
+                targets = n.targets if isinstance(n, _ast.Assign) else [n.target]
+                for t in targets:
+                    for x in _ast.walk(t):
+                        if isinstance(x, _ast.Attribute) and isinstance(x.value, _ast.Name) and x.value.id == "self" \
+                                and x.attr in SHARED_ATTRS and isinstance(x.ctx, (_ast.Store, _ast.Load)):
+                            tgt_attrs.append(x.attr)
+            if isinstance(n, _ast.Call) and isinstance(n.func, _ast.Attribute) and n.func.attr in MUTATORS \
+                    and isinstance(n.func.value, _ast.Attribute) and isinstance(n.func.value.value, _ast.Name) \
+                    and n.func.value.value.id == "self" and n.func.value.attr in SHARED_ATTRS:
+                tgt_attrs.append(n.func.value.attr)
+            if isinstance(n, _ast.Call) and isinstance(n.func, _ast.Attribute) and n.func.attr in ("heappush", "heappop"):
+                tgt_attrs.append("_mailbox")
+            if tgt_attrs and not _under_lock(n, parents):
+                bad.append((n.lineno, tgt_attrs))
+        out.append((f"Mailbox.{fn.name}: shared state is written only under the lock", not bad,
+                    "" if not bad else f"unlocked writes at {bad}"))
+    return out
+
+
+def divide_outputs_wiring():
+    """Shape of divide_outputs (its mailboxes are a dict of unknown size, so this part is structural, not semantic)."""
+    tree, _ = load_module_ast(F)
+    fn = next(n for n in tree.body if isinstance(n, _ast.FunctionDef) and n.name == "divide_outputs")
+    src = _ast.unparse(fn)
+    try_ = next(n for n in _ast.walk(fn) if isinstance(n, _ast.Try) and n.handlers and n.orelse)
+    handler = try_.handlers[0]
+    h_src = _ast.unparse(handler)
+    else_src = "\n".join(_ast.unparse(x) for x in try_.orelse)
+    loop = next(n for n in _ast.walk(try_) if isinstance(n, _ast.While))
+    loop_body = list(loop.body)
+    gate_for = loop_body[0] if loop_body and isinstance(loop_body[0], _ast.For) else None
+    gate_src = _ast.unparse(gate_for) if gate_for is not None else ""
+    next_pos = next((i for i, st_ in enumerate(loop_body) if "next(source)" in _ast.unparse(st_)), -1)
+    return [
+        ("any exception kills every output mailbox with it", "for m in mbs_to_kill" in h_src and "kill_from_exception(e, reraise=False)" in h_src,
+         h_src[:120]),
+        ("the handler catches Exception", _ast.unparse(handler.type) == "Exception", ""),
+        ("the exception is re-raised unless it is a MailboxKilled", "if not isinstance(e, MailboxKilled)" in h_src and "raise" in h_src, ""),
+        ("a regular stop closes every output mailbox", "for m in mbs_to_kill" in else_src and "m.close()" in else_src, else_src[:80]),
+        ("a failed send is thrown back into the source", "source.throw(e)" in src, ""),
+        ("lazy mode: the source is advanced only after the gate loop over all outputs", gate_for is not None and next_pos > 0
+         and "if lazy" in gate_src and "_can_fetch" in gate_src and "wait_for(m._can_fetch" in gate_src
+         and "if d in flow_freely" in gate_src and "continue" in gate_src, gate_src[:100]),
+        ("a timed-out gate raises instead of fetching", "raise MailboxReadTimeout" in gate_src, ""),
+    ]
+
+
+LOCK_DISCIPLINE = Structural("mailbox lock discipline", lock_discipline)
+DIVIDE_OUTPUTS = Structural("divide_outputs wiring", divide_outputs_wiring)
